@@ -27,14 +27,14 @@ def padded_faces(mesh, fill=None, dtype=None, width=None):
     return arr
 
 
-def grid_from_mesh(mesh, **kw):
+def grid_from_mesh(mesh, coord_dtype="float64", **kw):
     """Standard-form construction through Grid.from_topology (only derivations are under
-    test afterwards)."""
+    test afterwards).  coord_dtype: storage type of node_lon / node_lat."""
     INT_DTYPE, FILL = consts()
     nodes = np.asarray(mesh["nodes"], float).reshape(-1, 2)
     conn = padded_faces(mesh)
     return ux().Grid.from_topology(
-        node_lon=nodes[:, 0].copy(), node_lat=nodes[:, 1].copy(), face_node_connectivity=conn, fill_value=FILL, **kw
+        node_lon=nodes[:, 0].astype(coord_dtype), node_lat=nodes[:, 1].astype(coord_dtype), face_node_connectivity=conn, fill_value=FILL, **kw
     )
 
 
